@@ -25,6 +25,16 @@ ASSUMPTIONS = ['per-species cross-sections opacity(T_l, P_l, wn), cia(T_l, wn) a
 E10 = T.E10
 
 
+
+def _invalid_params(ctx, e):
+    """a parameter set the model itself rejects as invalid (InvalidModelException and subclasses) is outside every
+    property's quantifier: recorded in the malformed stream, never judged"""
+    from taurex.exceptions import InvalidModelException
+    if isinstance(e, InvalidModelException):
+        ctx.malformed_outcome('invalid-model-after-setters:' + type(e).__name__)
+        return True
+    return False
+
 def licensed_rows(impl, ref):
     """row-wise: equal to tolerance, or the returned row is saturated (all < exp(-10)) and not below the reference"""
     for l in range(impl.shape[0]):
@@ -381,6 +391,8 @@ def extra_checks(ctx, spec, m, wn, trans, depth, names):
             m.model()
             ctx.bucket('reuse-rerun')
         except Exception as e:
+            if _invalid_params(ctx, e):
+                return
             ctx.violation('stale-state:raises:' + type(e).__name__, 'reused model raised %r after setters' % (e,), spec)
     # ---- H-: opacity proportional to the product of the H and e- abundances; none without electrons
     if any(c['type'] == 'hm' for c in spec['contributions']):
